@@ -93,7 +93,10 @@ def _prune_builds(keep):
         if os.path.isdir(p) and d.startswith("b_") and p != keep:
             ents.append((os.path.getmtime(p), p))
     ents.sort()
-    for _, p in ents[:-1]:  # keep the most recent other one
+    now = time.time()
+    for mt, p in ents[:-1]:  # keep the most recent other one
+        if now - mt < 3 * 3600:
+            continue  # possibly in use by a check running concurrently against another tree
         shutil.rmtree(p, ignore_errors=True)
 
 
